@@ -151,5 +151,20 @@ PROPS["C05"] = {
     "replay_help": "case.ops: put(id,len) / crash(id,len,point) / reopen; correspondence_code 1 = appended position after some operation or a Get result differs from the model; oracle_code 1 = the reads are not exactly the abstract log (a completed append unreadable, altered, or an extra sequence readable)",
 }
 
+PROPS["C09"] = {
+    "harness": "c09",
+    "props_files": ["C09/Props.v"],
+    "n": {"quick": 150, "thorough": 2000},
+    "timeout": {"quick": 1200, "thorough": 3400},
+    "level_text": "Theorem (Coq, no axioms): the name dictionaries of the metadata and index databases (namespaces, metric names, tag keys, tag values, fields, series) as a history machine over mutable / immutable / persisted entries, the counters and their synced copy, PrepareFlush, the five steps of MetricMetaDatabase.Flush as separate steps, the index database's PrepareFlush/Flush, and crashes at any point between steps. For EVERY history inside the flush discipline (Flush is started after PrepareFlush; no new tag key enters a schema between the counter sync and the schema step of a running flush - sequential callers are proved to be inside it): asking again returns the same id, two names never share an id (database-wide for counter-based kinds, per metric for fields and series), a crash keeps exactly the persisted entries with their ids, and an id handed out after recovery is above every recovered id of its kind. A second theorem covers every schedule of concurrent get-or-create callers of one dictionary (lookup and create as separate micro-steps, create re-checking under the lock). Outside the discipline the statement is refuted in the model with a concrete history, which the harness replays on the real database (known finding). Tied to the code by replaying generated histories and forced schedules on real databases.",
+    "level_note": "Field ids are modelled as one above the largest field id of the schema where the code takes len(schema.Fields); the two agree while field ids are 0..n-1, which the correspondence exercises (crash histories included) but the proof does not establish. The index database's Flush is one atomic step in the model (no crash points inside it). A crash is a copy of the database directories (process death; completed file writes survive).",
+    "rule": "histories of 8-40 API steps over pools of 3 namespaces (two sharing a bucket), 4 metric names, 3 tag keys, 4 tag values, 3 fields, 5 tag sets: get-or-create of each kind, series creation, PrepareFlush, index PrepareFlush/Flush, MetricMetaDatabase.Flush with up to 3 concurrent-caller steps at each of its 4 scheduling points (metric, field, tag value, PrepareFlush, lookup; new tag keys only after the schema step) and a crash image taken at one of them in 25% of flushes, crashes and clean reopen at step boundaries, read-back of every pool name after each recovery and at the end; directed histories: empty PrepareFlush+Flush first, crash right after the counter sync, and the undisciplined tag-key schedule; one third of the cases are forced schedules of 2-3 concurrent GenMetricID callers (1-4 names each out of 4) advanced micro-step by micro-step through the scheduling point before createValue; non-trivial = history with a flush, a crash/reopen and a metric or series (or a schedule where two callers ask for the same name); distinct = different JSON",
+    "trusted": ["partial: free-running interleavings are not explored; concurrency enters through forced schedules at the scheduling points (before createValue in the index key-value store; between the steps of MetricMetaDatabase.Flush), and the all-schedules theorem is about the micro-step model of get-or-create",
+                "overlapping Flush calls, crash points inside the index database's Flush and inside a single store's table write are not modelled"],
+    "assumptions": ["run_ok init ops = true (flush discipline) in the injectivity / no-reuse theorems; C09_sequential_is_disciplined shows callers that do not overlap a flush satisfy it, C09_reuse_outside_discipline_refuted shows it cannot be dropped"],
+    "statement_status": {"ids_injective / no_reuse_after_crash": "proved inside the flush discipline", "outside the discipline": "refuted (C09_reuse_outside_discipline_refuted; known finding C09:tagkey-created-between-counter-sync-and-schema-flush)", "field ids dense": "not proved (model takes max+1; correspondence only)"},
+    "replay_help": "case.steps: API steps (flush carries the steps run at its scheduling points); case.model_ops: the model operations with what was observed (Some (Some id) / Some None = not found / None = not observed). correspondence_code n>0 = the n-th model operation's result differs from the implementation (800 = the history is not on the expected side of the flush discipline); oracle_code 101 = the id of a name changed while the node ran, 102 = two names share an id, 103 = a recovered name came back with another id, 104 = a name known to this run disappeared, 110 = concurrent callers disagree",
+}
+
 for _pid in PROPS:
     NOT_APPLICABLE.pop(_pid, None)
